@@ -8,12 +8,14 @@ package c11
 import (
 	"bytes"
 	"fmt"
+	"github.com/jcmturner/gokrb5/v8/zzverif/vnet"
 	"os"
 	"reflect"
 	"sort"
 	"strings"
 	"sync"
 	"time"
+	"verif/ref/krbmsg"
 
 	"verif/checks/cworld"
 	"verif/engine"
@@ -420,8 +422,125 @@ func Run(c *engine.Ctx) {
 		c.Sample(sc)
 	}
 	c.Cov["scenarios"] = per
+	inFlightHistories(c)
 	racePass(c)
-	c.Cov["rule"] = "every schedule within the preemption bound (0,1,2; 3 thorough) of each scenario: two (three in the thorough tier) threads issuing service-ticket requests for equal / different / other-realm SPNs, logins, destroy, the renewal timer firing, GetKDCs / GetKpasswdServers with 2-3 servers under every outcome of the random order; distinct = distinct (per-thread result, KDC request count) outcome vectors per scenario"
+	c.Cov["rule"] = "every schedule within the preemption bound (0,1,2; 3 thorough) of each scenario: two (three in the thorough tier) threads issuing service-ticket requests for equal / different / other-realm SPNs, logins, destroy, the renewal timer firing, GetKDCs / GetKpasswdServers with 2-3 servers under every outcome of the random order; every sequential history up to depth 5 (6 thorough) over {login, ticket, renewal timer, clock into the last sixth of the TGT's life, ticket* and timer* = the same with a Login completing while their first TGS request is in flight}; distinct = distinct (per-thread result, KDC request count) outcome vectors per scenario"
+}
+
+// inFlightHistories: sequential histories in which a Login completes while a request of the running operation is
+// in flight (the KDC has answered, the client has not yet read the reply). Events: login, ticket, the renewal timer
+// firing, the clock moving into the last sixth of the TGT's life; ticket* and timer* are the same with a login
+// completing while their first renewal / ticket request is in flight. Every history up to the depth runs under the
+// scheduler; a thread left blocked on a channel or lock when nothing else can run is a deadlock.
+func inFlightHistories(c *engine.Ctx) {
+	alphabet := []string{"login", "tA", "timer", "near-end", "tA*", "timer*"}
+	depth := 5
+	if c.Thorough() {
+		depth = 6
+	}
+	var n int64
+	var rec func(h []string)
+	run := func(h []string) {
+		n++
+		var w *cworld.World
+		var opErr []string
+		x := vsched.Run(nil, 400000, func() {
+			vclock.Virtual(cworld.T0)
+			vclock.AutoTick = time.Microsecond
+			w = cworld.New(optsFor(Scenario{NKDC: 1, Renew: true}))
+			armed := false
+			for _, nw := range []string{"udp", "tcp"} {
+				vnet.Register(nw, w.KDCAddr[0], &vnet.Endpoint{Behaviour: vnet.Answer, Handler: func(network, a string, req []byte) []byte {
+					rep := w.KDC.Handle(network, req)
+					if r, err := krbmsg.DecodeKDCReq(req); err == nil && r.App == krbmsg.AppTGSReq && armed {
+						armed = false
+						w.Client.Login() // completes while the reply to req is in flight
+					}
+					return rep
+				}})
+			}
+			for _, ev := range h {
+				switch ev {
+				case "login":
+					if err := w.Client.Login(); err != nil {
+						opErr = append(opErr, ev+": "+err.Error())
+					}
+				case "tA", "tA*":
+					armed = ev == "tA*"
+					w.Client.GetServiceTicket(spns["tA"])
+					armed = false
+				case "timer", "timer*":
+					armed = ev == "timer*"
+					var next time.Time
+					for _, t := range vclock.PendingTimers() {
+						if t.After(vclock.Now()) && (next.IsZero() || t.Before(next)) {
+							next = t
+						}
+					}
+					if !next.IsZero() {
+						vclock.Set(next)
+					}
+					vsched.Quiesce()
+					armed = false
+				case "near-end":
+					var end time.Time
+					for _, s := range w.Client.VerifSessions() {
+						if s.Realm == cworld.Realm {
+							end = s.EndTime
+						}
+					}
+					if t := end.Add(-20 * time.Second); t.After(vclock.Now()) {
+						vclock.Set(t)
+					}
+				}
+				vsched.Quiesce()
+			}
+		})
+		recd := map[string]interface{}{"history": h, "legend": "x* = a Login completes while the first TGS request of x is in flight"}
+		if x.Panic != "" {
+			c.Violate("inflight", "panic:in-flight-history", map[string]interface{}{"panic": x.Panic}, recd)
+			return
+		}
+		var blocked []string
+		for _, b := range x.Blocked() {
+			if !strings.HasSuffix(b, "@select") && !strings.HasSuffix(b, "@sleep") && !strings.HasSuffix(b, "@quiesce") {
+				blocked = append(blocked, b)
+			}
+		}
+		if x.Horizon {
+			c.Violate("inflight", "livelock:in-flight-history", nil, recd)
+		} else if len(blocked) > 0 {
+			c.Violate("inflight", "deadlock:login-while-a-renewal-is-in-flight", map[string]interface{}{"blocked": blocked, "trace_tail": lastN(engine.Describe(x), 12)}, recd)
+		} else {
+			c.Distinct("inflight/" + strings.Join(h, ","))
+		}
+	}
+	rec = func(h []string) {
+		if len(h) > 0 {
+			run(h)
+		}
+		if len(h) == depth || c.Expired() {
+			return
+		}
+		for _, ev := range alphabet {
+			if len(h) == 0 && ev != "login" {
+				continue // every history starts logged in
+			}
+			rec(append(append([]string{}, h...), ev))
+		}
+	}
+	rec(nil)
+	c.Add("evaluations", n)
+	c.Add("states", n)
+	c.Add("transitions", n)
+	c.Cov["in_flight_histories"] = n
+}
+
+func lastN(s []string, n int) []string {
+	if len(s) > n {
+		return s[len(s)-n:]
+	}
+	return s
 }
 
 // RaceBody is run by the -race build: the same scenario bodies on real goroutines.
